@@ -13,6 +13,7 @@ import (
 
 	"cvh/lib"
 
+	"github.com/onflow/cadence/common"
 	"github.com/onflow/cadence/interpreter"
 	"github.com/onflow/cadence/sema"
 )
@@ -84,6 +85,8 @@ func main() {
 		c13(sum)
 	case "C14":
 		c14(sum)
+	case "C32":
+		c32(sum)
 	default:
 		fmt.Fprintln(os.Stderr, "unknown prop", *prop)
 		os.Exit(2)
@@ -811,4 +814,275 @@ func c14(sum *lib.Summary) {
 			}
 		}
 	}
+}
+
+type mop struct {
+	Name string
+	Est  func(a, b *big.Int) common.MemoryUsage // the estimator in common/metering.go
+	Res  func(a, b *big.Int) *big.Int           // what the operation produces
+	Call func(ctx interpreter.NumberValueArithmeticContext, a, b interpreter.IntegerValue) interpreter.Value
+	Def  func(a, b *big.Int) bool
+}
+
+var always = func(a, b *big.Int) bool { return true }
+var nonzeroB = func(a, b *big.Int) bool { return b.Sign() != 0 }
+
+var mops = []mop{
+	{"MPlus", common.NewPlusBigIntMemoryUsage, func(a, b *big.Int) *big.Int { return new(big.Int).Add(a, b) },
+		func(c interpreter.NumberValueArithmeticContext, a, b interpreter.IntegerValue) interpreter.Value {
+			return a.Plus(c, b)
+		}, always},
+	{"MMinus", common.NewMinusBigIntMemoryUsage, func(a, b *big.Int) *big.Int { return new(big.Int).Sub(a, b) },
+		func(c interpreter.NumberValueArithmeticContext, a, b interpreter.IntegerValue) interpreter.Value {
+			return a.Minus(c, b)
+		}, always},
+	{"MMul", common.NewMulBigIntMemoryUsage, func(a, b *big.Int) *big.Int { return new(big.Int).Mul(a, b) },
+		func(c interpreter.NumberValueArithmeticContext, a, b interpreter.IntegerValue) interpreter.Value {
+			return a.Mul(c, b)
+		}, always},
+	{"MDiv", common.NewDivBigIntMemoryUsage, func(a, b *big.Int) *big.Int { return new(big.Int).Quo(a, b) },
+		func(c interpreter.NumberValueArithmeticContext, a, b interpreter.IntegerValue) interpreter.Value {
+			return a.Div(c, b)
+		}, nonzeroB},
+	{"MMod", common.NewModBigIntMemoryUsage, func(a, b *big.Int) *big.Int { return new(big.Int).Rem(a, b) },
+		func(c interpreter.NumberValueArithmeticContext, a, b interpreter.IntegerValue) interpreter.Value {
+			return a.Mod(c, b)
+		}, nonzeroB},
+	{"MOr", common.NewBitwiseOrBigIntMemoryUsage, func(a, b *big.Int) *big.Int { return new(big.Int).Or(a, b) },
+		func(c interpreter.NumberValueArithmeticContext, a, b interpreter.IntegerValue) interpreter.Value {
+			return a.BitwiseOr(c, b)
+		}, always},
+	{"MXor", common.NewBitwiseXorBigIntMemoryUsage, func(a, b *big.Int) *big.Int { return new(big.Int).Xor(a, b) },
+		func(c interpreter.NumberValueArithmeticContext, a, b interpreter.IntegerValue) interpreter.Value {
+			return a.BitwiseXor(c, b)
+		}, always},
+	{"MAnd", common.NewBitwiseAndBigIntMemoryUsage, func(a, b *big.Int) *big.Int { return new(big.Int).And(a, b) },
+		func(c interpreter.NumberValueArithmeticContext, a, b interpreter.IntegerValue) interpreter.Value {
+			return a.BitwiseAnd(c, b)
+		}, always},
+	{"MShl", common.NewBitwiseLeftShiftBigIntMemoryUsage, func(a, b *big.Int) *big.Int { return new(big.Int).Lsh(a, uint(b.Uint64())) },
+		func(c interpreter.NumberValueArithmeticContext, a, b interpreter.IntegerValue) interpreter.Value {
+			return a.BitwiseLeftShift(c, b)
+		}, func(a, b *big.Int) bool { return b.Sign() >= 0 && b.Cmp(big.NewInt(20000)) <= 0 }},
+	{"MShr", common.NewBitwiseRightShiftBigIntMemoryUsage, func(a, b *big.Int) *big.Int { return new(big.Int).Rsh(a, uint(b.Uint64())) },
+		func(c interpreter.NumberValueArithmeticContext, a, b interpreter.IntegerValue) interpreter.Value {
+			return a.BitwiseRightShift(c, b)
+		}, func(a, b *big.Int) bool { return b.Sign() >= 0 && b.Cmp(big.NewInt(1<<40)) <= 0 }},
+	{"MNeg", func(a, b *big.Int) common.MemoryUsage { return common.NewNegateBigIntMemoryUsage(a) }, func(a, b *big.Int) *big.Int { return new(big.Int).Neg(a) },
+		func(c interpreter.NumberValueArithmeticContext, a, b interpreter.IntegerValue) interpreter.Value {
+			return a.Negate(c)
+		}, always},
+}
+
+// estimator branch, used to key failures narrowly
+func meterBranch(name string, a, b *big.Int) string {
+	wa, wb := len(a.Bits()), len(b.Bits())
+	switch name {
+	case "MDiv", "MMod":
+		if a.Cmp(b) < 0 || wb == 1 {
+			return "a<b-or-|b|=1"
+		} else if wb < 100 {
+			return "mid(|b|<100)"
+		}
+		return "large(|b|>=100)"
+	case "MShr":
+		if a.Sign() >= 0 {
+			if b.Sign() == 0 {
+				return "a>=0,b=0"
+			}
+			return "a>=0,b>0"
+		}
+		return "a<0"
+	case "MShl":
+		if b.Sign() == 0 {
+			return "b=0"
+		}
+		return "b>0"
+	case "MOr", "MXor", "MAnd":
+		if a.Sign() >= 0 && b.Sign() >= 0 {
+			return "nonneg"
+		} else if a.Sign() <= 0 && b.Sign() <= 0 {
+			return "nonpos"
+		}
+		return "mixed"
+	case "MMul":
+		if min(wa, wb) <= 40 {
+			return "small"
+		}
+		return "karatsuba"
+	}
+	return "all"
+}
+
+func c32(sum *lib.Summary) {
+	rng := lib.NewRng(*seed)
+	cw := &lib.CaseWriter{Dir: *dir, Prefix: "cases_C32", Header: "From CV Require Import Num.MeterCases.",
+		ElemType: "mop * Z * Z * Z", CheckFn: "check_meter", PerFile: 500}
+	rec := &lib.MemRecorder{}
+	inter := lib.NewInterp(rec)
+	distinct := map[string]bool{}
+	ncoq := 0
+	sum.Rule = "Int and UInt x {+,-,*,/,%,|,^,&,<<,>>,neg}: operands of word length 0..300 at word boundaries (2^(64k)-1, 2^(64k), 2^(64k)+1), both signs, " +
+		"random values of random word length, divisors around the estimator's branch thresholds (|b| = 1, 2, 99, 100, 101; a<b, a=b, a>b), shift amounts " +
+		"0..130, multiples of 64 +-1 up to thousands of bits; plus Int128/Int256/UInt128/UInt256/Word128/Word256 operations against their fixed 16/32-byte usage. " +
+		"For each case: (1) the estimator of common/metering.go is called directly and its amount compared with the Coq model (vm_compute), " +
+		"(2) the amount metered as MemoryKindBigInt by the real value method under a recording gauge is compared with that estimator, " +
+		"(3) both are compared with 8*len(result.Bits()). non-trivial = both operands non-zero and at least one longer than one word; distinct = distinct (op,a,b)"
+	check := func(o mop, a, b *big.Int, unsignedToo bool) {
+		if !o.Def(a, b) {
+			return
+		}
+		sum.Evaluations++
+		est := o.Est(a, b).Amount
+		res := o.Res(a, b)
+		need := uint64(len(res.Bits()) * 8)
+		br := meterBranch(o.Name, a, b)
+		sum.Count(o.Name + " " + br)
+		if a.Sign() != 0 && b.Sign() != 0 && (len(a.Bits()) > 1 || len(b.Bits()) > 1) {
+			key := o.Name + a.String() + " " + b.String()
+			if !distinct[key] {
+				distinct[key] = true
+				sum.DistinctNontrivial++
+			}
+		}
+		if est < need {
+			sum.Fail(fmt.Sprintf("underreport:%s:%s", o.Name, br),
+				fmt.Sprintf("%s: estimator meters %d bytes but the result has %d bytes (|a|=%d words, |b|=%d words, b=%s)", o.Name, est, need, len(a.Bits()), len(b.Bits()), trunc(b.String())),
+				map[string]any{"op": o.Name, "a": a.String(), "b": b.String(), "metered_bytes": est, "result_bytes": need, "branch": br, "via": "common.New...BigIntMemoryUsage"})
+		}
+		ncoq++
+		if *tier == "thorough" || ncoq%7 == 0 || est < need {
+			cw.Add(fmt.Sprintf("(%s, %s, %s, %d)", o.Name, lib.Z(a), lib.Z(b), est),
+				map[string]any{"op": o.Name, "a": trunc(a.String()), "b": trunc(b.String()), "a_words": len(a.Bits()), "b_words": len(b.Bits()), "metered": est, "branch": br})
+		}
+		if len(sum.Samples) < 8 && len(a.Bits()) > 1 {
+			sum.Sample(map[string]any{"op": o.Name, "a_words": len(a.Bits()), "b_words": len(b.Bits()), "b": trunc(b.String()), "metered": est, "result_bytes": need})
+		}
+		// through the real value methods (Int always; UInt when operands and result are non-negative)
+		for _, tn := range []string{"Int", "UInt"} {
+			if tn == "UInt" && (!unsignedToo || a.Sign() < 0 || b.Sign() < 0 || res.Sign() < 0 || o.Name == "MNeg") {
+				continue
+			}
+			t := lib.IntTypeByName(tn)
+			va, vb := t.Make(a), t.Make(b)
+			rec.Reset()
+			var out interpreter.Value
+			cls, _ := lib.Catch(func() { out = o.Call(inter, va, vb) })
+			if cls != "" {
+				continue
+			}
+			got := rec.SumKind(common.MemoryKindBigInt)
+			sum.Evaluations++
+			outBytes := uint64(len(lib.ValueToBig(out).Bits()) * 8)
+			if got != est {
+				sum.Fail(fmt.Sprintf("method-meters-differently:%s:%s", tn, o.Name),
+					fmt.Sprintf("%s.%s meters %d bytes of BigInt memory, the estimator says %d", tn, o.Name, got, est),
+					map[string]any{"type": tn, "op": o.Name, "a": a.String(), "b": b.String(), "metered_by_method": got, "estimator": est})
+			}
+			if got < outBytes {
+				sum.Fail(fmt.Sprintf("underreport:%s:%s", o.Name, br),
+					fmt.Sprintf("%s %s: value method metered %d bytes but its result has %d bytes", tn, o.Name, got, outBytes),
+					map[string]any{"type": tn, "op": o.Name, "a": a.String(), "b": b.String(), "metered_bytes": got, "result_bytes": outBytes, "branch": br, "via": "value method under recording gauge"})
+			}
+		}
+	}
+	// operand pool
+	var pool []*big.Int
+	add := func(z *big.Int) { pool = append(pool, z, new(big.Int).Neg(z)) }
+	for _, i := range []int64{0, 1, 2, 5, 255} {
+		add(big.NewInt(i))
+	}
+	wl := []int{1, 2, 3, 39, 40, 41, 42, 50, 80, 99, 100, 101, 150, 300}
+	if *tier == "thorough" {
+		for k := 4; k < 300; k += 7 {
+			wl = append(wl, k)
+		}
+	}
+	for _, k := range wl {
+		p := new(big.Int).Lsh(big.NewInt(1), uint(64*k))
+		add(new(big.Int).Sub(p, big.NewInt(1)))
+		add(p)
+		add(new(big.Int).Add(p, big.NewInt(12345)))
+		add(new(big.Int).Lsh(big.NewInt(1), uint(64*k-1)))
+	}
+	nr := 25
+	if *tier == "thorough" {
+		nr = 400
+	}
+	for i := 0; i < nr; i++ {
+		z := rng.BigBits(64*(1+rng.Intn(260)) - rng.Intn(64))
+		add(z)
+	}
+	arithOps := mops[:8]
+	for _, o := range arithOps {
+		for i, a := range pool {
+			for j, b := range pool {
+				if *tier == "thorough" || (i*13+j*7)%9 == 0 || (i < 24 && j < 24) {
+					check(o, a, b, true)
+				}
+			}
+		}
+	}
+	// known witnesses of the two recorded findings are always exercised
+	w1a := new(big.Int).Sub(new(big.Int).Lsh(big.NewInt(1), 3200), big.NewInt(1))
+	w1b := new(big.Int).Add(new(big.Int).Lsh(big.NewInt(1), 2559), big.NewInt(12345))
+	check(mops[4], w1a, w1b, true)
+	check(mops[9], new(big.Int).Lsh(big.NewInt(1), 6399), big.NewInt(640), true)
+	// shifts
+	var amts []*big.Int
+	for k := int64(0); k <= 130; k++ {
+		amts = append(amts, big.NewInt(k))
+	}
+	for _, k := range []int64{191, 192, 193, 640, 1000, 4095, 4096, 6400, 19200, 19264, 20000} {
+		amts = append(amts, big.NewInt(k))
+	}
+	for i, a := range pool {
+		for j, b := range amts {
+			if *tier == "thorough" || (i*5+j*3)%7 == 0 {
+				check(mops[8], a, b, true)
+				check(mops[9], a, b, true)
+			}
+		}
+	}
+	for _, a := range pool {
+		check(mops[10], a, big.NewInt(0), false)
+	}
+	cw.Close()
+	sum.CaseFiles = cw.Files
+	// fixed-size big types: metered amount is the fixed usage, result must fit
+	for _, tn := range []string{"Int128", "Int256", "UInt128", "UInt256", "Word128", "Word256"} {
+		t := lib.IntTypeByName(tn)
+		lat := t.Lattice()
+		for _, o := range mops[:10] {
+			for _, a := range lat {
+				for _, b := range lat {
+					if (o.Name == "MShl" || o.Name == "MShr") && (b.Sign() < 0 || b.Cmp(big.NewInt(300)) > 0) {
+						continue
+					}
+					rec.Reset()
+					var out interpreter.Value
+					cls, _ := lib.Catch(func() { out = o.Call(inter, t.Make(a), t.Make(b)) })
+					if cls != "" {
+						continue
+					}
+					sum.Evaluations++
+					sum.Count(tn + " fixed")
+					got := rec.SumKind(common.MemoryKindBigInt)
+					outBytes := uint64(len(lib.ValueToBig(out).Bits()) * 8)
+					if got < outBytes {
+						sum.Fail(fmt.Sprintf("underreport-fixed:%s:%s", tn, o.Name),
+							fmt.Sprintf("%s %s: metered %d bytes, result %d bytes", tn, o.Name, got, outBytes),
+							map[string]any{"type": tn, "op": o.Name, "a": a.String(), "b": b.String(), "metered_bytes": got, "result_bytes": outBytes})
+					}
+				}
+			}
+		}
+	}
+}
+
+func trunc(s string) string {
+	if len(s) > 60 {
+		return s[:24] + fmt.Sprintf("...(%d digits)...", len(s)) + s[len(s)-12:]
+	}
+	return s
 }
